@@ -6,7 +6,7 @@
 //@ shim: src/dap/yadap/protocol.rs :: struct DapRequest :: seq: i64, command: String
 //@ assume: sequential model of the session thread only: `server_seq.fetch_add(1)` (next_seq) is an ext fn returning the counter and advancing it; taking the transport lock and write_message append the message to a ghost `wire` sequence on the session shim; serde_json::to_value keeps the fields (ghost view of the JSON value); the two output-forwarder threads that share server_seq and the lock are NOT modelled (concurrency: sequence numbers across threads are outside this unit)
 //@ assume: signature substitution: `run(mut self, ..)` -> `run(&mut self, ..)` (Verus: `mut self` unsupported)
-//@ assume: dispatch (the 40 handlers) is an assumed contract in the unit C12.wire/run: it answers the request exactly once when it returns Ok and not at all when it returns Err; drain_events sends no response; a failed transport write sets a ghost `io_failed` flag and response accounting is claimed only while it is unset
+//@ assume: dispatch (the 40 handlers) is an assumed contract: a handler answers its own request at most once and nobody else's, and has answered when it returns Ok (it may answer and then fail); drain_events sends no response; a failed transport write sets a ghost `io_failed` flag and response accounting is claimed only while it is unset
 //@ notcovered: the handlers themselves (whether each really answers exactly once), causal order of events, concurrency with the output forwarders
 use vstd::prelude::*;
 verus! {
@@ -132,11 +132,16 @@ impl DebugSession {
         ensures final(self).reqs@ == old(self).reqs@, !final(self).io_failed@ ==> !old(self).io_failed@ && forall|rs: int| #[trigger] answers(final(self).wire@, rs) == answers(old(self).wire@, rs),
     { unimplemented!() }
 
-    /// ASSUMED contract of the 40 handlers: Ok = answered exactly once, Err = not answered
+    /// ASSUMED contract of the 40 handlers (what they can be relied on for, checked for handle_continue by C12.handlers):
+    /// a handler answers its own request at most once and no other request; when it returns Ok it has answered.
+    /// It may answer and THEN fail (handle_continue responds before it blocks).
     #[verifier::external_body]
     fn dispatch(&mut self, req: &DapRequest, oracles: &Oracles) -> (r: Result<bool, AnyErr>)
         ensures final(self).reqs@ == old(self).reqs@,
-            !final(self).io_failed@ ==> !old(self).io_failed@ && forall|rs: int| #[trigger] answers(final(self).wire@, rs) == answers(old(self).wire@, rs) + (if r is Ok && rs == req.seq { 1nat } else { 0nat }),
+            !final(self).io_failed@ ==> !old(self).io_failed@
+                && (forall|rs: int| rs != req.seq ==> #[trigger] answers(final(self).wire@, rs) == answers(old(self).wire@, rs))
+                && answers(old(self).wire@, req.seq as int) <= answers(final(self).wire@, req.seq as int) <= answers(old(self).wire@, req.seq as int) + 1
+                && (r is Ok ==> answers(final(self).wire@, req.seq as int) == answers(old(self).wire@, req.seq as int) + 1),
     { unimplemented!() }
 
     /// send_err -> send_response_raw(req, false, ..): one response for `req` (proved for send_response_raw above: E_rsp)
